@@ -341,6 +341,21 @@ def standard_check(mod, tier, seed, replay=None):
             if not pok:
                 proof_ok = False
                 broken.append('Properties file: ' + pout[-400:])
+        # source-to-model tie files of this property (Properties/Tie*.v: "regenerated definition = model function")
+        for tie_v in getattr(mod, 'TIE_FILES', []):
+            ob0, di0, cmd0 = res.obligations, res.discharged, res.checker_cmd
+            tok, tout = coq_make([tie_v], timeout=1200)
+            if tok:
+                tok, _, tout = check_properties_file(tie_v, getattr(mod, 'ALLOWED_AXIOMS', []), res)
+                res.obligations, res.discharged = ob0 + res.obligations, di0 + res.discharged
+            else:
+                res.obligations, res.discharged = ob0 + 1, di0
+            res.checker_cmd = cmd0 + ' ; ' + tie_v
+            if not tok:
+                proof_ok = False
+                m = re.search(r'File "\./([^"]+)", line (\d+)[^\n]*\n(Error:[^\n]*(?:\n[^\n]*){0,6})', tout)
+                broken.append('source-to-model tie %s no longer checks: %s' % (
+                    tie_v, ('%s line %s: %s' % (m.group(1), m.group(2), m.group(3))) if m else tout[-500:]))
         if proof_ok and tier == 'thorough' and not replay:
             # independent re-check of the compiled property file and everything it depends on
             lib = 'Verif.' + prop_v[:-2].replace('/', '.')
@@ -373,7 +388,20 @@ def standard_check(mod, tier, seed, replay=None):
         for c in rp.get('cases', []):
             cases.append(Case(c['kind'], c['req'], c.get('key')))
     else:
-        cases = mod.gen_cases(rng, tier if proof_ok else 'thorough')
+        cases = mod.gen_cases(rng, tier)
+        if not proof_ok and tier != 'thorough':
+            # a proof / tie obligation broke: widen the search for a failing input with the thorough streams, capped so
+            # that the quick command stays within minutes (evenly spaced sample, boundary streams come first and stay dense)
+            extra = mod.gen_cases(random.Random(seed + 1), 'thorough')
+            cap = getattr(mod, 'ESCALATE_CAP', max(2000, 3 * len(cases)))
+            if len(extra) > cap:
+                head = extra[:cap // 2]
+                rest = extra[cap // 2:]
+                step = max(1, len(rest) // (cap - len(head)))
+                extra = head + rest[::step][:cap - len(head)]
+            seen = {c.req for c in cases}
+            cases += [c for c in extra if c.req not in seen]
+            res.notes.append('proof side broken: search widened with %d cases of the thorough streams' % (len(cases) - len(seen)))
     failing_input_found = False
     if cases:
         reqs = [c.req for c in cases]
